@@ -249,6 +249,29 @@ def gen_path_case(rng, base_eq, max_units=None):
             'topology': topo, 'spectrum': spec, 'perm_seed': rng.randint(0, 10 ** 9)}
 
 
+def gen_rpath_case(rng, base_eq, small):
+    """a line system with RamanFiber spans in arbitrary positions (first / middle / last, after fibres, ROADMs and amplifiers
+    that carry PMD); designed with the user's Raman flag OFF, propagated with the flag ON"""
+    c = gen_path_case(rng, base_eq, max_units=rng.choice([3, 4]) if small else None)
+    fibers = [e for e in c['topology']['elements'] if e['type'] == 'Fiber']
+    for e in rng.sample(fibers, min(len(fibers), rng.choice([1, 1, 2]))):
+        pumps = [{'power': rng.uniform(0.05, 0.3), 'frequency': rng.uniform(203e12, 207e12),
+                  'propagation_direction': 'counterprop'} for _ in range(rng.choice([1, 2]))]
+        if rng.random() < 0.25:
+            pumps.append({'power': rng.uniform(0.05, 0.15), 'frequency': rng.uniform(203e12, 207e12), 'propagation_direction': 'coprop'})
+        e['type'] = 'RamanFiber'
+        e['operational'] = {'temperature': 283, 'raman_pumps': pumps}
+        lc = e['params']['loss_coef']
+        e['params'] = {'length': rng.uniform(20.0, 120.0),
+                       'length_units': 'km', 'loss_coef': lc if not isinstance(lc, dict) else 0.2, 'con_in': e['params']['con_in'],
+                       'con_out': e['params']['con_out'], 'pmd_coef': rng.uniform(5e-16, 3e-15)}
+    c['kind'] = 'rpath'
+    c['perm'] = bool(small)
+    c['raman'] = {'method': rng.choice(['perturbative', 'numerical']), 'order': rng.choice([1, 2]),
+                  'step': rng.choice([500.0, 1000.0, 2000.0]), 'res': rng.choice([10e3, 20e3])}
+    return c
+
+
 MB_VARIETIES = {   # multi_band varieties of tests/data/eqpt_config_multiband.json whose stages cover the full C and L bands
     'std_medium_gain_multiband': ['std_medium_gain', 'std_medium_gain_L'],
     'std_low_gain_multiband': ['std_low_gain', 'std_low_gain_L'],
@@ -711,6 +734,7 @@ def build_path(case):
     for a in eq['Edfa']:
         a['pmd'], a['pdl'] = case['eqpt_overrides']['Edfa'][a['type_variety']]
     eq['Roadm'] = eq['Roadm'] + copy.deepcopy(case['eqpt_overrides']['Roadm'])
+    eq.setdefault('RamanFiber', copy.deepcopy(eq['Fiber']))
     equipment, network = load_eqpt_topo_from_json(eq, copy.deepcopy(case['topology']), extra_configs=extra)
     add_missing_elements_in_network(network, equipment)
     build_network(network, equipment, PathRequest(power=dbm2watt(0), tx_power=dbm2watt(0), nb_channel=20), verbose=False)
@@ -774,8 +798,9 @@ def band_value(bands, key, f):
     return None
 
 
-def drive_path(ctx, case, built):
-    """propagate the designed path element by element; oracle after every element; returns (term, final obs)"""
+def drive_path(ctx, case, built, raman_on=False):
+    """propagate the designed path element by element; oracle after every element; returns (term, final obs).
+    With the Raman flag on (paths containing RamanFiber) the Raman-off budget clauses are not judged here."""
     from gnpy.core.elements import Fiber, Transceiver
     cs = strip(case)
     eq, path = built
@@ -792,7 +817,7 @@ def drive_path(ctx, case, built):
         own_cd = None
         if isinstance(el, Fiber):
             own_cd = np.broadcast_to(el.chromatic_dispersion(si.frequency), si.frequency.shape).astype(float).tolist()
-            applied = probe_ref_loss(el)
+            applied = None if raman_on else probe_ref_loss(el)
             try:
                 adv = float(el.loss)
             except Exception:
@@ -816,7 +841,7 @@ def drive_path(ctx, case, built):
                 pp = dict(par, att_in=el.params.att_in, con_in=el.params.con_in, con_out=el.params.con_out)
                 bud = fiber_budget_py(pp, f)
                 got = 10 * math.log10(b4['p'][j] / af['p'][j])
-                if bud is not None and abs(got - bud) > 1e-9 * max(1.0, abs(bud)) and not bad:
+                if not raman_on and bud is not None and abs(got - bud) > 1e-9 * max(1.0, abs(bud)) and not bad:
                     bad = True
                     ctx.violation('budget', f"{el.uid} channel {j}: attenuated by {got:.9f} dB, budget {bud:.9f} dB", cs,
                                   observed_db=got, expected_db=bud, duplicate_positions=positions_dup(par.get('lumped_losses', [])),
@@ -918,6 +943,72 @@ def run_perm(ctx, case, path, desc, final, rng):
                               f"({got['cd'][j]}, {got['lat'][j]}, {got['pmd'][j]}, {got['pdl'][j]}) vs designed order "
                               f"({final['cd'][j]}, {final['lat'][j]}, {final['pmd'][j]}, {final['pdl'][j]})", cs)
                 return
+
+
+# ---- designed paths that contain RamanFiber spans
+def simparams_json():
+    from gnpy.core.parameters import SimParams
+    return {k: v.to_json() for k, v in SimParams._shared_dict.items()}
+
+
+def drive_rpath(ctx, case, sim, rng):
+    """(A) user's Raman flag OFF: design; the simulation parameters in force afterwards must be the user's, and every plain Fiber
+    of the path must apply exactly its budget to a high-power comb.  (B) flag ON: element-by-element accumulation oracle
+    (a RamanFiber accumulates CD / PMD / latency like a Fiber), order independence on permuted span orders."""
+    from gnpy.core.elements import Fiber, RamanFiber
+    from gnpy.core.info import create_input_spectral_information
+    cs = strip(case)
+    sim.set()
+    before = simparams_json()
+    built = build_path(case)
+    eq, path = built
+    after = simparams_json()
+    changed = {k: (before[k], after[k]) for k in before if before[k] != after[k]}
+    if changed:
+        ctx.count('simparams_changed_by_design')
+    ctx.count('rpath_ramanfibers', sum(isinstance(e, RamanFiber) for e in path))
+    for pos, e in enumerate(x for x in path if isinstance(x, Fiber)):
+        if isinstance(e, RamanFiber):
+            ctx.count('rpath_ramanfiber_%s' % ('first' if pos == 0 else 'later'))
+    topo = {e['uid']: e for e in case['topology']['elements']}
+    bad = False
+    for el in path:
+        if isinstance(el, Fiber) and not isinstance(el, RamanFiber) and not bad:
+            m = re.match(r'^(.*)_\((\d+)/(\d+)\)$', el.uid)
+            par = dict(topo[el.uid if el.uid in topo else m.group(1)]['params'])
+            par.update(length=float(el.params.length), length_units='m', att_in=el.params.att_in, con_in=el.params.con_in,
+                       con_out=el.params.con_out)
+            si = create_input_spectral_information(f_min=191.3e12, f_max=196.1e12, roll_off=0.15, baud_rate=32e9, spacing=50e9,
+                                                   tx_osnr=40.0, tx_power=2e-3)       # 96 channels at +3 dBm
+            pin = si.pch.copy()
+            saved = (el.pch_out_db, el.propagated_labels, el.ref_pch_in_dbm)
+            el.ref_pch_in_dbm = 3.0
+            try:
+                out = el(si)
+            finally:
+                el.pch_out_db, el.propagated_labels, el.ref_pch_in_dbm = saved
+            ctx.count('rpath_plain_fibre_budget_probes')
+            for j, f in enumerate(out.frequency.tolist()):
+                bud = fiber_budget_py(par, f)
+                got = 10 * math.log10(pin[j] / out.pch[j])
+                if bud is not None and abs(got - bud) > 1e-9 * max(1.0, abs(bud)):
+                    bad = True
+                    why = (f'; the simulation parameters in force after the auto-design differ from the user\'s (Raman off): {changed}'
+                           if changed else '')
+                    ctx.violation('budget', f"Raman off, after the auto-design of a line containing a RamanFiber: {el.uid} channel {j} "
+                                  f"({f:.4e} Hz) of a 96 x +3 dBm comb attenuated by {got:.6f} dB, budget {bud:.6f} dB{why}", cs,
+                                  observed_db=got, expected_db=bud, simparams_changed=changed)
+                    break
+    # (B) Raman on
+    r = case['raman']
+    sim.set(flag=True, method=r['method'], order=r['order'], result_spatial_resolution=r['res'], solver_spatial_resolution=r['step'])
+    try:
+        term, final, path, desc = drive_path(ctx, case, built, raman_on=True)
+        if case.get('perm'):
+            run_perm(ctx, case, path, desc, final, rng)
+    finally:
+        sim.set()
+    return term, final, path
 
 
 # ---- multiband amplifiers (per-band stages with different PMD / PDL)
@@ -1314,6 +1405,7 @@ def run(ctx):
         cases += [gen_fiber_case(rng) for _ in range(ctx.scale(180, 2500))]
         cases += [gen_path_case(rng, eq0) for _ in range(ctx.scale(24, 300))]
         cases += [gen_path_case(rng, eq0, max_units=rng.choice([3, 4, 4])) for _ in range(ctx.scale(6, 60))]
+        cases += [gen_rpath_case(rng, eq0, small=(k % 2 == 0)) for k in range(ctx.scale(8, 80))]
         cases += [gen_mb_case(rng) for _ in range(ctx.scale(12, 150))]
         cases += [gen_merge_case(rng) for _ in range(ctx.scale(80, 1500))]
         cases += [gen_euler_case(rng) for _ in range(ctx.scale(40, 500))]
@@ -1377,6 +1469,17 @@ def run(ctx):
                 post.append((diff_path, c, final))
                 if kind == 'perm':
                     run_perm(ctx, c, path, desc, final, rng)
+            elif kind == 'rpath':
+                try:
+                    term, final, path = drive_rpath(ctx, c, sim, rng)
+                except Exception as e:
+                    ctx.violation('path_exception', f'{type(e).__name__}: {e}', cs)
+                    sim.set()
+                    continue
+                ctx.case(cs, True)
+                ctx.count('path_elements', len(path))
+                terms.append(term)
+                post.append((diff_path, c, final))
             elif kind == 'mb':
                 term, final = drive_mb(ctx, c)
                 ctx.case(cs, True)
